@@ -9,6 +9,9 @@ package props
 import (
 	"bytes"
 	"context"
+	"encoding/binary"
+	"io"
+	"net"
 	"fmt"
 	"sync"
 	"testing"
@@ -427,5 +430,130 @@ func TestC02_Relay(t *testing.T) {
 		maxBytes = 2 << 20
 	}
 	p := kit.Prop[C02Case]{ID: "C02", Name: "Relay", Quick: 6000, Thorough: 120000, Gen: genC02(maxBytes), Run: runC02}
+	p.Execute(t)
+}
+
+// ---- concurrent relays -----------------------------------------------------------------------
+// Many connections at once through one handler and one key list: every one of them must relay its own
+// bytes intact in both directions (nothing shared between handshakes may leak from one into another).
+
+type C02Conc struct {
+	Cipher  string `json:"cipher"`
+	Workers int    `json:"workers"`
+	PerW    int    `json:"per_worker"`
+	Up      int    `json:"up"`
+	Down    int    `json:"down"`
+	Seed    int64  `json:"seed"`
+}
+
+func genC02Conc(t *rapid.T) C02Conc {
+	return C02Conc{Cipher: rapid.SampledFrom(kit.AllCiphers).Draw(t, "cipher"), Workers: rapid.IntRange(2, 16).Draw(t, "workers"), PerW: rapid.IntRange(10, 120).Draw(t, "perw"),
+		Up: rapid.SampledFrom([]int{0, 1, 30, 2000}).Draw(t, "up"), Down: rapid.SampledFrom([]int{1, 30, 2000}).Draw(t, "down"), Seed: rapid.Int64Range(1, 1<<40).Draw(t, "seed")}
+}
+
+func runC02Conc(c C02Conc, info *kit.Info) *kit.Finding {
+	keys := []kit.KeySpec{{ID: "a", Cipher: kit.AES128, Secret: "other-a"}, {ID: "user", Cipher: c.Cipher, Secret: "the-secret"}, {ID: "b", Cipher: kit.Chacha, Secret: "other-b"}}
+	key := keys[1].Key()
+	h := service.NewStreamHandler(service.NewShadowsocksStreamAuthenticator(kit.NewCipherList(keys), nil, nil, nil), 5*time.Second)
+	h.SetTargetDialer(kit.PermissiveDialer)
+	front, err := kit.ServeTCP("127.0.0.1", func(ctx context.Context, conn transport.StreamConn) { h.Handle(ctx, conn, nil) })
+	if err != nil {
+		info.Skipped = err.Error()
+		return nil
+	}
+	defer front.Close(3 * time.Second)
+	// echo-style target: answers every connection with `Down` bytes derived from the first 8 bytes it received
+	tl, err := kit.ListenTCPLow(&net.TCPAddr{IP: net.IPv4(127, 0, 0, 1)})
+	if err != nil {
+		info.Skipped = err.Error()
+		return nil
+	}
+	defer tl.Close()
+	go func() {
+		for {
+			tc, err := tl.AcceptTCP()
+			if err != nil {
+				return
+			}
+			go func() {
+				defer tc.Close()
+				tc.SetDeadline(time.Now().Add(c02Bound))
+				hdr := make([]byte, 8)
+				if _, err := io.ReadFull(tc, hdr); err != nil {
+					return
+				}
+				id := int64(binary.BigEndian.Uint64(hdr))
+				rest, _ := io.ReadAll(tc)
+				want := kit.DetBytes(id, c.Up)
+				ok := byte(1)
+				if !bytes.Equal(rest, want) {
+					ok = 0
+				}
+				tc.Write(append([]byte{ok}, kit.DetBytes(id+1, c.Down)...))
+			}()
+		}
+	}()
+	var wg sync.WaitGroup
+	var mu sync.Mutex
+	var fnd *kit.Finding
+	fail := func(f *kit.Finding) {
+		mu.Lock()
+		if fnd == nil {
+			fnd = f
+		}
+		mu.Unlock()
+	}
+	addr := kit.SocksAddrFor(tl.Addr().String(), false)
+	for w := 0; w < c.Workers; w++ {
+		wg.Add(1)
+		go func(w int) {
+			defer wg.Done()
+			for i := 0; i < c.PerW; i++ {
+				mu.Lock()
+				stop := fnd != nil
+				mu.Unlock()
+				if stop {
+					return
+				}
+				id := c.Seed + int64(w)*1_000_003 + int64(i)
+				cn, err := kit.DialTCP(front.Addr, c02Bound)
+				if err != nil {
+					if !kit.EnvNetError(err) {
+						fail(kit.Violation("relay:dial-refused", "%v", err))
+					}
+					return
+				}
+				hdr := make([]byte, 8)
+				binary.BigEndian.PutUint64(hdr, uint64(id))
+				plain := append(append(append([]byte(nil), addr...), hdr...), kit.DetBytes(id, c.Up)...)
+				cn.Write(kit.EncodeStream(key, kit.DetBytes(id+7, key.SaltSize()), plain, []int{len(addr) + 8}))
+				cn.CloseWrite()
+				cn.SetReadDeadline(time.Now().Add(c02Bound))
+				raw, rerr := io.ReadAll(cn)
+				cn.SetLinger(0)
+				cn.Close()
+				dec := kit.NewStreamDecoder(key)
+				if derr := dec.Feed(raw); derr != nil || rerr != nil || len(dec.Plain) != 1+c.Down {
+					fail(kit.Violation("relay:concurrent-broken", "connection %d of worker %d (one of %d concurrent workers): the client got %d plaintext bytes back (want %d; read err %v, decrypt err %v): its request was not relayed", i, w, c.Workers, len(dec.Plain), 1+c.Down, rerr, derr))
+					return
+				}
+				if dec.Plain[0] != 1 {
+					fail(kit.Violation("relay:c2t-corrupt", "connection %d of worker %d: the target did not receive exactly the client's %d bytes", i, w, c.Up))
+					return
+				}
+				if !bytes.Equal(dec.Plain[1:], kit.DetBytes(id+1, c.Down)) {
+					fail(kit.Violation("relay:t2c-corrupt", "connection %d of worker %d: the client did not receive exactly the target's %d bytes (another connection's data?)", i, w, c.Down))
+					return
+				}
+			}
+		}(w)
+	}
+	wg.Wait()
+	info.NonTrivial, info.Steps = true, c.Workers*c.PerW
+	return fnd
+}
+
+func TestC02_Concurrent(t *testing.T) {
+	p := kit.Prop[C02Conc]{ID: "C02", Name: "Concurrent", Quick: 60, Thorough: 4000, Gen: genC02Conc, Run: runC02Conc}
 	p.Execute(t)
 }
